@@ -33,12 +33,13 @@ const (
 	OpSetMaximum
 	OpIterate
 	OpViews
+	OpRunTasks
 	numOps
 )
 
 var opNames = []string{"Set", "SetIfAbsent", "GetIfPresent", "GetEntry", "GetEntryQuietly", "Compute", "ComputeIfAbsent",
 	"ComputeIfPresent", "Invalidate", "InvalidateAll", "SetExpiresAfter", "SetRefreshableAfter", "Get", "BulkGet", "Refresh",
-	"BulkRefresh", "CleanUp", "Advance", "SetMaximum", "Iterate", "Views"}
+	"BulkRefresh", "CleanUp", "Advance", "SetMaximum", "Iterate", "Views", "RunTasks"}
 
 // Compute decisions.
 const (
@@ -91,6 +92,8 @@ func (o Op) String() string {
 		return fmt.Sprintf("Iterate(%d)", o.Which)
 	case OpInvalidateAll, OpCleanUp, OpViews:
 		return opNames[o.Kind]
+	case OpRunTasks:
+		return fmt.Sprintf("RunTasks(n=%d order=%d)", o.Dur, o.Which)
 	}
 	return fmt.Sprintf("%s(%d)", opNames[o.Kind], o.Key)
 }
@@ -122,7 +125,7 @@ type Coverage struct {
 }
 
 func NewRunner(cfg Config, cov *Coverage) (*Runner, error) {
-	env, err := NewEnv(cfg, false)
+	env, err := NewEnv(cfg, cfg.Queued)
 	if err != nil {
 		return nil, err
 	}
@@ -267,6 +270,17 @@ func (r *Runner) exec(op *Op) (o obs) {
 			}
 		}
 	case OpViews:
+	case OpRunTasks:
+		// run queued executor tasks: oldest first, or (order != 0) a PRNG-chosen one each time
+		for i := int64(0); i < op.Dur && len(e.Queue) > 0; i++ {
+			idx := 0
+			if op.Which != 0 {
+				idx = int(uint64(op.Which)*2654435761+uint64(i)*40503) % len(e.Queue)
+			}
+			fn := e.Queue[idx]
+			e.Queue = append(e.Queue[:idx], e.Queue[idx+1:]...)
+			e.runTask(fn)
+		}
 	}
 	return o
 }
@@ -1142,7 +1156,7 @@ func (m *Model) compareIter(op *Op, o *obs, name string) {
 
 // settle applies what holds after the operation returned.
 func (m *Model) settle(op *Op) {
-	if m.cfg.Bounded() {
+	if m.cfg.Bounded() && (!m.cfg.Queued || op.Kind == OpCleanUp) {
 		total := m.totalWeight()
 		if total > m.max {
 			m.fail("bound", "after %s: total weight %d exceeds the maximum %d", op, total, m.max)
@@ -1201,7 +1215,7 @@ func (r *Runner) audit(op *Op) {
 		m.fail("views", "after %s: EstimatedSize()=%d, the model holds %d entries not reported as removed", op, n, len(m.phys))
 		return
 	}
-	if op.Kind == OpViews || r.OpsOK%7 == 0 {
+	if (op.Kind == OpViews || r.OpsOK%7 == 0) && (!m.cfg.Queued || op.Kind == OpCleanUp) {
 		wantMax := m.max
 		if !m.cfg.Bounded() {
 			wantMax = math.MaxUint64
